@@ -20,6 +20,10 @@ GL = "graphical_lasso."
 @rule("C03", "R1", "FLOW", "the solver returns the X iterate (eigenvalues e/(2 rho) > 0), not the sparse consensus variable", floor=3)
 def r1(ctx):
     ana = ctx.ana
+    # "whatever finite data a cluster holds": the covariance handed to the solver is finite for a one-point cluster when the biased
+    # estimator is requested (an explicit ddof=1 overrides bias= and yields NaN)
+    from . import c12
+    ctx.sub(c12.r2, only=("bias:kw",))
     fi = ana.func(SOLVER + "run_admm_optimization")
     cfg, rd = ana.cfg(fi), ana.rd(fi)
     rets = [n for n in cfg.nodes if n.kind == "stmt" and isinstance(n.ast, ast.Return)]
